@@ -4,7 +4,7 @@
 //  (a) every single record whose captured text is a concatenation of <= 3 of 16 hostile fragments
 //      (raw LF, CR LF, quotes, backslashes, NUL and other control characters, U+2028/2029, U+0085,
 //      astral characters, JSON look-alikes) is read back equal;
-//  (b) every batch pair (A, B) drawn from a pool of 40 records (lint records of every LintKind, every
+//  (b) every batch pair (A, B) drawn from a pool of 42 records (lint records of every LintKind, every
 //      kind of context token, configuration updates; batches of 0..=2 records) written one after the
 //      other to the same log reads back as A ++ B, in order;
 //  (c) summarize() counts every lint record exactly once: total_applied == number of lint records and
@@ -91,6 +91,10 @@ fn rac_stats_roundtrip() {
     }
     // pool for (b) and (c)
     let mut pool: Vec<Record> = Vec::new();
+    // a lint that intersects no token has an empty context (an insertion point at the very end of a text)
+    for i in 0..2usize {
+        pool.push(Record { kind: RecordKind::Lint { kind: kinds[i * 3], context: vec![] }, when: 77 + i as i64, uuid: uuid::Uuid::from_u128(0xfeed + i as u128) });
+    }
     for i in 0..30 {
         pool.push(mk(i * 131 + 7, &texts[(i * 97 + 1) % texts.len()]));
     }
@@ -144,5 +148,5 @@ fn rac_stats_roundtrip() {
         }
     }
     println!("RAC-SAMPLE stats_roundtrip {{\"clause\": \"b\", \"first_batch_len\": 2, \"second_batch_len\": 1, \"first_record\": {:?}}}", serde_json::to_string(&pool[3]).unwrap());
-    println!("RAC-OK stats_roundtrip cases={} nontrivial={} bound=captured-text<={}-of-16-fragments;batch-pairs-from-61-batches-over-40-records", cases, nontrivial, depth);
+    println!("RAC-OK stats_roundtrip cases={} nontrivial={} bound=captured-text<={}-of-16-fragments;batch-pairs-from-65-batches-over-42-records", cases, nontrivial, depth);
 }
